@@ -72,12 +72,16 @@ class NoAuth(asyncssh.SSHServer):
         return False
 
 
+SRV_RX = []
+
+
 async def _echo(proc):
     try:
         while True:
             data = await proc.stdin.read(65536)
             if not data:
                 break
+            SRV_RX.append(data)
             proc.stdout.write(data)
         proc.exit(0)
     except (asyncssh.Error, OSError):
@@ -92,6 +96,7 @@ def run_session(payloads, client_kw=None, server_kw=None, chunker=None,
     rec = Recorder()
     _verif.set_sink(rec.sink)
     out = {'rec': rec, 'outcome': None, 'echoed': [], 'lost': {}}
+    del SRV_RX[:]
     skw = dict(server_factory=NoAuth, server_host_keys=[hostkey()],
                process_factory=_echo, encoding=None)
     skw.update(server_kw or {})
@@ -153,6 +158,7 @@ def run_session(payloads, client_kw=None, server_kw=None, chunker=None,
         loop.run_until_idle()
     except BaseException:               # pylint: disable=broad-except
         pass
+    out['srv_rx'] = b''.join(SRV_RX)
     out['loop_exceptions'] = [str(c.get('exception') or c.get('message'))
                               for c in loop.exceptions]
     if 'chunkers' in out:
@@ -230,3 +236,92 @@ def seq_jump(value):
             b._recv_seq = value
             rec.events.append(('seq', d, value))
     return cb
+
+
+class Mitm:
+    """On-path adversary at packet granularity.  Every transport.write() is
+    one SSH packet; packets of a direction are numbered from 1 starting with
+    the first packet written after that side sent NEWKEYS (i.e. the first
+    encrypted one).  actions: list of dicts
+      {dir: 'cs'|'sc', op: flip|trunc|drop|dup|swap|splice, id: n, ...}"""
+
+    def __init__(self, actions, macsize=16, seed=0):
+        self.actions = list(actions)
+        self.macsize = macsize
+        self.count = {'cs': 0, 'sc': 0}
+        self.enc = {'cs': False, 'sc': False}
+        self.seen = {'cs': [], 'sc': []}      # encrypted packets as written
+        self.fwd = {'cs': [], 'sc': []}       # encrypted bytes as forwarded
+        self.held = {}
+        self.applied = []
+        self.rec = None
+
+    def attach(self, rec, ct, st):
+        self.rec = rec
+        orig = rec.sink
+
+        def sink(name, f):
+            orig(name, f)
+            if name == 'pkt_out' and f['pkttype'] == 21:
+                side = 'cs' if f['conn'].is_client() else 'sc'
+                self.enc[side] = True
+        _verif.set_sink(sink)
+
+    def filter(self, transport, idx, data):
+        d = 'cs' if transport.name == 'c' else 'sc'
+        self.rec.events.append(('w', d, data))
+        if not self.enc[d]:
+            return [data]
+        self.count[d] += 1
+        n = self.count[d]
+        self.seen[d].append(data)
+        out = [data]
+        if d in self.held:                      # second half of a swap
+            out = [data, self.held.pop(d)]
+        for a in self.actions:
+            if a['dir'] != d or a['id'] != n or a.get('done'):
+                continue
+            a['done'] = True
+            self.applied.append(dict(a))
+            op = a['op']
+            if op == 'flip':
+                out = [self._flip(data, a['region'], a.get('bit', 0))] + out[1:]
+            elif op == 'trunc':
+                out = [data[:max(1, len(data) - 1 - a.get('cut', 0))]] + out[1:]
+            elif op == 'drop':
+                out = out[1:]
+            elif op == 'dup':
+                out = [data] + out
+            elif op == 'swap':
+                self.held[d] = data
+                out = out[1:]
+            elif op == 'splice':
+                w = a['what']
+                if w == 'replay':
+                    ins = self.seen[d][0] if len(self.seen[d]) > 1 else data
+                elif w == 'foreign':
+                    o = 'sc' if d == 'cs' else 'cs'
+                    ins = self.seen[o][0] if self.seen[o] else bytes(48)
+                else:
+                    ins = bytes((7 * i + 3) % 256 for i in range(len(data)))
+                out = [ins] + out
+        self.fwd[d] += out
+        return out
+
+    def _flip(self, data, region, bit):
+        b = bytearray(data)
+        ms = self.macsize
+        if region == 'len':
+            pos = bit % 4
+        elif region == 'tag':
+            pos = len(b) - 1 - (bit % ms)
+        elif region == 'pad':
+            pos = len(b) - ms - 1 - (bit % 4)
+        else:
+            body = len(b) - ms - 5 - 4
+            pos = 5 + (bit * 7) % max(1, body)
+        b[pos] ^= 1 << (bit % 8)
+        return bytes(b)
+
+    def changed(self, d):
+        return b''.join(self.seen[d]) != b''.join(self.fwd[d])
